@@ -17,6 +17,7 @@ package batch
 import (
 	"errors"
 	"io"
+	"runtime"
 	"sync/atomic"
 	"time"
 )
@@ -34,6 +35,7 @@ type batcherImpl struct {
 	callC               chan any
 	closeC              chan bool
 	closed              atomic.Bool
+	adding              atomic.Int32
 	linger              time.Duration
 	maxRequestsPerBatch int
 }
@@ -45,10 +47,15 @@ func (b *batcherImpl) Close() error {
 }
 
 func (b *batcherImpl) Add(call any) {
+	// Run() does not return while an Add() is between the closed check and the enqueuing of its call:
+	// otherwise that call would stay in the queue forever, and never be completed
+	b.adding.Add(1)
 	if b.closed.Load() {
+		b.adding.Add(-1)
 		b.failCall(call, ErrShuttingDown)
 	} else {
 		b.callC <- call
+		b.adding.Add(-1)
 	}
 }
 
@@ -111,7 +118,10 @@ func (b *batcherImpl) Run() { //nolint:revive
 				case call := <-b.callC:
 					b.failCall(call, ErrShuttingDown)
 				default:
-					return
+					if b.adding.Load() == 0 {
+						return
+					}
+					runtime.Gosched()
 				}
 			}
 		}
